@@ -186,8 +186,7 @@ func TestC12_P_HamtFaults(t *testing.T) {
 	ev := newEvid(t, c12HamtRule)
 	maxN := scale(150, 600)
 	rapid.Check(t, func(t *rapid.T) {
-		names, _ := genNames(t, nameOpts{Max: maxN})
-		fanout := genFanout(t)
+		names, _, fanout := genNamesFanout(t, nameOpts{Max: maxN})
 		es := make([]entrySpec, len(names))
 		member := map[string]cid.Cid{}
 		for i, n := range names {
@@ -308,6 +307,29 @@ func TestC12_P_HamtFaults(t *testing.T) {
 			if nerr != wantErrs {
 				t.Fatalf("C12 hamt [%s] iteration reported %d errors, want one per missing shard met = %d", desc, nerr, wantErrs)
 			}
+			// the node that lived through the faults: Length() has no error channel, so what it returns while a shard is
+			// missing is not judged - but once storage is healthy again the same node must report the whole directory
+			saved := st.Missing
+			must(t, "length under fault, then healed", func() {
+				_ = rn.Length()
+				st.Missing = map[cid.Cid]bool{}
+				for round := 0; round < 2; round++ {
+					if l := rn.Length(); l != int64(len(names)) {
+						t.Fatalf("C12 hamt [%s] after the shards came back, Length() #%d on the node that met the fault = %d, the directory has %d entries", desc, round+1, l, len(names))
+					}
+				}
+				n := 0
+				for it := rn.MapIterator(); !it.Done() && n <= len(names); {
+					if _, _, err := it.Next(); err != nil {
+						t.Fatalf("C12 hamt [%s] after the shards came back, iteration on the node that met the fault: %v", desc, err)
+					}
+					n++
+				}
+				if n != len(names) {
+					t.Fatalf("C12 hamt [%s] after the shards came back, iteration on the node that met the fault yields %d of %d entries", desc, n, len(names))
+				}
+			})
+			st.Missing = saved
 			// an operation that needs every shard (preload reification) must report the load error as well
 			var perr error
 			must(t, "preload under fault", func() { _, perr = loadReified(ls, root, "unixfs-preload") })
@@ -387,6 +409,9 @@ func TestC12_P_HamtFaults(t *testing.T) {
 				}
 			})
 			st.FailReadAt = 0
+			if l := rn.Length(); l != int64(len(names)) {
+				t.Fatalf("C12 hamt fanout=%d n=%d: load #%d failed once during an iteration; afterwards Length() on that node = %d, the directory has %d entries", fanout, len(names), k, l, len(names))
+			}
 			wantEnts, _ := tree.ReachableWithout(map[cid.Cid]bool{shards[k-1]: true})
 			if nerr != 1 || got != len(wantEnts) {
 				t.Fatalf("C12 hamt fanout=%d n=%d: load #%d failing: iteration yielded %d entries and %d errors, want %d and 1", fanout, len(names), k, got, nerr, len(wantEnts))
